@@ -10,7 +10,7 @@ CLAIMED = {
                  'piece of code.',
         'note': 'Trusted: queue.PriorityQueue pops the `<`-smallest item; itertools.count is strictly increasing and atomic under the GIL. '
                 'Order among concurrent publishers is undefined by the property and not decided.',
-        'technique': SA + 'finite-domain abstract evaluation of __lt__ over all order types + dataflow of the sequence field + field-type census of the queues; evaluation over int objects that are equal but not identical; shared mechanism rules: QUEUE.internals (queue bookkeeping left to the queue)',
+        'technique': SA + 'finite-domain abstract evaluation of __lt__ over all order types + dataflow of the sequence field + field-type census of the queues; evaluation over int objects that are equal but not identical; shared mechanism rules: QUEUE.internals (queue bookkeeping left to the queue); round 7: ORDER.start-path (fabric/writer start only on the start path, fabric first)',
     },
     'C25': {
         'level': 'Decides the registry discipline that makes name<->number a stable bijection for all name sequences and interleavings: append-only '
@@ -28,7 +28,7 @@ CLAIMED = {
                  'loads(dumps(e)) is evaluated in the finite evaluator on eleven payload shapes (None, falsy scalars and containers, nested) with the '
                  'stdlib codec. Payload equality for arbitrary runtime values beyond that domain rests on json being an inverse pair.',
         'note': 'Trusted: json.dumps/json.loads are inverse on JSON-representable values. Event(name) registration is covered by C25.',
-        'technique': SA + 'writer/reader table agreement by local def-use dataflow; finite-domain evaluation of dumps then loads over 11 payloads and 9 signal names (padded, tab, newline, empty, quotes, non-ASCII); shared mechanism rules: SINGLETON.module-binding',
+        'technique': SA + 'writer/reader table agreement by local def-use dataflow; finite-domain evaluation of dumps then loads over 11 payloads and 9 signal names (padded, tab, newline, empty, quotes, non-ASCII); shared mechanism rules: SINGLETON.module-binding; round 7: borrowed: ATOMIC.registry of C25',
     },
     'C27': {
         'level': 'Decides lockset facts of the get/set hand-over protocol that hold for every interleaving: which accesses are inside the critical '
@@ -37,7 +37,7 @@ CLAIMED = {
         'note': 'Trusted: RLock semantics; `obj.x += v` is __get__ then __set__ on one thread. Serialisability of the final value is argued from the '
                 'lockset, not explored.',
         'technique': SA + 'lockset dataflow (set of lock depths per CFG node), dominance / post-dominance of acquire and release; blocking-acquire rule; '
-                     'finite evaluation of the line classifier on the 13 augmented-assignment operators; linecache readers must be given the module globals (text available for loader-only modules); no text rewriting between the frame info and the classifier',
+                     'finite evaluation of the line classifier on the 13 augmented-assignment operators; linecache readers must be given the module globals (text available for loader-only modules); no text rewriting between the frame info and the classifier; round 7: PROTO.caller-frame',
     },
     'C28': {
         'level': 'Decides, over the complete finite universe of Python operator tokens, which statement forms the source-line classifier treats as '
@@ -46,26 +46,26 @@ CLAIMED = {
         'note': 'Trusted: inspect.getframeinfo gives the physical source line; token.EXACT_TOKEN_TYPES of the interpreter is the operator universe. '
                 'The regex literal is evaluated by the stdlib engine on the finite token universe (constant evaluation, not execution of miros).',
         'technique': SA + 'constant evaluation of the classifier regex and of the classifier functions as a whole over token.EXACT_TOKEN_TYPES + path counting of '
-                     'release() per branch; no getattr/setattr/hasattr/delattr with a computed key on the instance inside the descriptor (user hooks must not run with the lock held); no text rewriting between the frame info and the classifier; hand-over flag kept per descriptor; line list subscripted only when present',
+                     'release() per branch; no getattr/setattr/hasattr/delattr with a computed key on the instance inside the descriptor (user hooks must not run with the lock held); no text rewriting between the frame info and the classifier; hand-over flag kept per descriptor; line list subscripted only when present; round 7: PROTO.caller-frame',
     },
     'C29': {
         'level': 'Decides for every program whether values can leak between instances: the descriptor object is per class, so the storage its '
                  '__get__/__set__ touch must be selected by their instance parameter. A dataflow fact about two small methods.',
         'note': 'Trusted: Python descriptor protocol. The default value path (0 until assigned) is checked at the metaclass call site.',
-        'technique': SA + 'def-use dataflow from the instance/value parameters to the store target and to every returned value; the stored value is reached through the instance\'s own namespace, never through getattr (DESC.own-namespace)'
+        'technique': SA + 'def-use dataflow from the instance/value parameters to the store target and to every returned value; the stored value is reached through the instance\'s own namespace, never through getattr (DESC.own-namespace); round 7: DESC.no-capture'
                      + '; every reaching definition of the store\'s container is the instance\'s own',
     },
     'C30': {
         'level': 'Decides the creation race for every schedule: test-empty and assign of the lazily created instance are in one critical section '
                  'whose lock pre-exists; no raw construction or outside assignment of the slot anywhere in the package.',
         'note': 'Trusted: `with lock` is a critical section. Singleton lifetime (process) is not modelled.',
-        'technique': SA + 'lockset rule on SingletonDecorator.__call__ + who-may-construct / who-may-assign census over the package; publication rule: the slot receives finished objects only and is not emptied after a completed store; shared mechanism rules: SINGLETON.module-binding; ATOMIC.decorator-once',
+        'technique': SA + 'lockset rule on SingletonDecorator.__call__ + who-may-construct / who-may-assign census over the package; publication rule: the slot receives finished objects only and is not emptied after a completed store; shared mechanism rules: SINGLETON.module-binding; ATOMIC.decorator-once; round 7: ATOMIC.no-memo',
     },
     'C31': {
         'level': 'Decides for every interleaving that a rejected timed source never runs: no CFG path through thread.start() reaches the rejection, the '
                  'admission test dominates the start, tracked sources are untouched on the rejecting path, and a started source is always tracked.',
         'note': 'Trusted: a Thread does nothing before start(). Capacity race between two concurrent timed posts at 499/500 is not armed (see DESIGN).',
-        'technique': SA + 'reachability / dominance / path counting on the CFG of the timed-post routine; the limit is read through the object, not from a named base class (ADMIT.own-limit); shared mechanism rules: TRACK.owner (tracking deque created once), SCAN.pop-on-match'
+        'technique': SA + 'reachability / dominance / path counting on the CFG of the timed-post routine; the limit is read through the object, not from a named base class (ADMIT.own-limit); shared mechanism rules: TRACK.owner (tracking deque created once), SCAN.pop-on-match; round 7: RING.owners'
                      + '; reaching definitions of the flag cleared on the rejection path; admission limit == maxlen',
     },
     'C32': {
@@ -73,7 +73,7 @@ CLAIMED = {
                  'removed exactly by the reader regex and nothing else is, and both branches of stripped() normalise identically. The "exactly '
                  'when" over arbitrary perturbed inputs is not decided.',
         'note': 'Trusted: strftime digit directives emit ASCII digits. Regex/format literals are evaluated by the stdlib on a finite alphabet-covering set.',
-        'technique': SA + 'constant evaluation of writer format and reader regex literals over the timestamp alphabet + CFG sibling comparison of the two branches; finite evaluation of stripped() on traces built from the writer\'s layout (equal timestamps, repeated records, blank/padded lines); WRITER.line-per-record'
+        'technique': SA + 'constant evaluation of writer format and reader regex literals over the timestamp alphabet + CFG sibling comparison of the two branches; finite evaluation of stripped() on traces built from the writer\'s layout (equal timestamps, repeated records, blank/padded lines); WRITER.line-per-record; round 7: borrowed: LIVE.newness of C21'
                      + '; helpers followed through decorators; no memoised helper returns a mutable container',
     },
     'C04': {
@@ -83,14 +83,14 @@ CLAIMED = {
                  'own thread reaches the step function. The linearised claim over all interleavings is NOT decided.',
         'note': 'Not decided: the history-level claim (exactly once / queue order / quiescence under every interleaving); it is argued from the '
                 'token potential in DESIGN.md. Trusted: deque and Queue semantics; external callers do not drive next_rtc of a started object.',
-        'technique': SA + 'end-label and path-count rules on CFGs, guard analysis of the token protocol, thread-root reachability on the call graph; who-operates census on the pending-event queue (LAYER.queue-writers) and class of the queue objects (ENDS.queue-class); shared mechanism rules: LIVE.snapshot, RING.owners (step buffers written/cleared only on the chart thread)',
+        'technique': SA + 'end-label and path-count rules on CFGs, guard analysis of the token protocol, thread-root reachability on the call graph; who-operates census on the pending-event queue (LAYER.queue-writers) and class of the queue objects (ENDS.queue-class); shared mechanism rules: LIVE.snapshot, RING.owners (step buffers written/cleared only on the chart thread); round 7: STEP.guard-reset (guard flags cleared in a finally), borrowed: WRAP.no-block of C18',
     },
     'C05': {
         'level': 'Decides necessary conditions of "every post returns": each blocking token put has room by construction (guard + equal '
                  'capacities), the repair loops are monotone in what their guard compares, and no other loop or blocking call is reachable from an '
                  'untimed post. Fair termination itself is a liveness property of schedules and is NOT decided.',
         'note': 'Not decided: termination under fair schedules. Trusted: Queue.put blocks only when full; qsize/len are atomic reads.',
-        'technique': SA + 'loop/guard operator analysis (one-sided comparison rule), call-graph closure of the post path, constructor capacity agreement; shared mechanism rules: LIVE.snapshot, RING.owners (step buffers written/cleared only on the chart thread)',
+        'technique': SA + 'loop/guard operator analysis (one-sided comparison rule), call-graph closure of the post path, constructor capacity agreement; shared mechanism rules: LIVE.snapshot, RING.owners (step buffers written/cleared only on the chart thread); round 7: WRAP.no-lock (no lock held across the wrapped step), borrowed: WRAP.no-block of C18',
     },
     'C07': {
         'level': 'Decides that every configuration of subscribe/publish - instrumented or not, thread running or not, other subscribers present or '
@@ -98,7 +98,7 @@ CLAIMED = {
                  'wrappers, both branches of the thread-running selector, payload-tuple writer/reader agreement with the meta arms of top(), and '
                  'an identity-keyed "already subscribed" guard.',
         'note': 'Not decided: arrival at the chart under all delivery schedules (fabric side: C06, placement: C09).',
-        'technique': SA + 'path counting through decorator wrappers, branch analysis, interprocedural key-dependence slice of the guard, namedtuple field agreement; grow-only rule for subscriber lists outside clear() (LAYER.registry-grows); shared mechanism rules: LIVE.snapshot, RING.owners (step buffers written/cleared only on the chart thread), STOP.liveness (finite evaluation of the thread-running predicate)'
+        'technique': SA + 'path counting through decorator wrappers, branch analysis, interprocedural key-dependence slice of the guard, namedtuple field agreement; grow-only rule for subscriber lists outside clear() (LAYER.registry-grows); shared mechanism rules: LIVE.snapshot, RING.owners (step buffers written/cleared only on the chart thread), STOP.liveness (finite evaluation of the thread-running predicate); round 7: QUEUE.internals'
                      + '; hand-over atoms of the run-time subscription (nothing but the keyed already-subscribed test may skip it)',
     },
     'C14': {
@@ -106,13 +106,13 @@ CLAIMED = {
                  'from next_rtc, one pop <-> one dispatch of the popped value per step, complete_circuit loops exactly while non-empty, and '
                  'dispatch unreachable from the post methods in the call graph.',
         'note': 'Trusted: collections.deque semantics. Handlers re-entering dispatch directly (H4) are outside the quantifier.',
-        'technique': SA + 'end labels, path counting, loop-shape rule, call-graph reachability; who-operates census on the pending-event queue (LAYER.queue-writers) and class of the queue objects (ENDS.queue-class); shared mechanism rules: BOUND.buffers',
+        'technique': SA + 'end labels, path counting, loop-shape rule, call-graph reachability; who-operates census on the pending-event queue (LAYER.queue-writers) and class of the queue objects (ENDS.queue-class); shared mechanism rules: BOUND.buffers; round 7: STEP.guard-reset (guard flags cleared in a finally)',
     },
     'C15': {
         'level': 'Decides the deferral discipline for every interleaving of defer/recall/posts/steps: single writer end, single reader end (oldest), '
                  're-post of exactly the removed element with post_fifo, None on empty, nobody else touches the buffer.',
         'note': 'Trusted: deque semantics; post_fifo places at the back (C14).',
-        'technique': SA + 'end labels, path counting per branch, who-may-touch census, wrapper discipline; shared mechanism rules: BOUND.buffers, ENDS.recall-guard',
+        'technique': SA + 'end labels, path counting per branch, who-may-touch census, wrapper discipline; shared mechanism rules: BOUND.buffers, ENDS.recall-guard; round 7: STEP.guard-reset (guard flags cleared in a finally), borrowed: CONSUMER.next_rtc / CONSUMER.circuit of C14',
     },
     'C16': {
         'level': 'Decides capacity and non-blocking per path of the code, so for empty, partly filled and full queues alike: every deque has a named '
@@ -128,7 +128,7 @@ CLAIMED = {
                  'spy-wrapped.',
         'note': 'Assumes H4 (handlers cannot reach wrapper locals). Behavioural equality of runs is not executed; it follows from the wrappers being '
                 'transparent.',
-        'technique': SA + 'exactly-once path counting on wrapper CFGs, argument/result forwarding dataflow, attribute-path effect sets, dominance of the instrumented test; exception transparency of the wrappers (no return in finally, no catch-all without re-raise); shared mechanism rules: RING.owners (step buffers written/cleared only on the chart thread), BOOK.outputs-only (state_name/state_fn read by nothing)'
+        'technique': SA + 'exactly-once path counting on wrapper CFGs, argument/result forwarding dataflow, attribute-path effect sets, dominance of the instrumented test; exception transparency of the wrappers (no return in finally, no catch-all without re-raise); shared mechanism rules: RING.owners (step buffers written/cleared only on the chart thread), BOOK.outputs-only (state_name/state_fn read by nothing); round 7: WRAP.no-lock (no lock held across the wrapped step)'
                      + '; spy-decoration detection rests on evidence specific to the spy_on wrapper',
     },
     'C06': {
@@ -137,13 +137,13 @@ CLAIMED = {
                  'kind -> registry -> thread -> fabric-queue wiring by dataflow, delivery loop over exactly registry[signal of the item], one put per '
                  'kind per publication, and no rebinding of objects the threads hold.',
         'note': 'Not decided: exactly-once across delivery-thread interleavings (a history property). Trusted: list iteration, atomic deque adds.',
-        'technique': SA + 'identity/content operator census, per-path modification counts, dataflow wiring through start()/subscribe(), loop-shape rules, alias rule; grow-only rule for subscriber lists outside clear() (LAYER.registry-grows); shared mechanism rules: QUEUE.internals (queue bookkeeping left to the queue)',
+        'technique': SA + 'identity/content operator census, per-path modification counts, dataflow wiring through start()/subscribe(), loop-shape rules, alias rule; grow-only rule for subscriber lists outside clear() (LAYER.registry-grows); shared mechanism rules: QUEUE.internals (queue bookkeeping left to the queue); round 7: ORDER.start-path (fabric/writer start only on the start path, fabric first)',
     },
     'C09': {
         'level': 'Decides which end of a subscriber queue each delivery thread adds to, with "front" read from the consumer (the pop in next_rtc) and the '
                  'kind of each thread resolved by dataflow. The lifo thread appending at the back is an open finding (a test pins it).',
         'note': 'Known finding F-C09 is reported as KNOWN-FINDING; any other end mismatch is a violation.',
-        'technique': SA + 'end-label agreement between producer threads and the consumer, kind resolution by dataflow; who-operates census on the pending-event queue (LAYER.queue-writers) and class of the queue objects (ENDS.queue-class); shared mechanism rules: LIVE.snapshot, RING.owners (step buffers written/cleared only on the chart thread); BOUND.tokens',
+        'technique': SA + 'end-label agreement between producer threads and the consumer, kind resolution by dataflow; who-operates census on the pending-event queue (LAYER.queue-writers) and class of the queue objects (ENDS.queue-class); shared mechanism rules: LIVE.snapshot, RING.owners (step buffers written/cleared only on the chart thread); BOUND.tokens; round 7: borrowed: ALIAS.queue of C04, QUEUE.internals',
     },
     'C10': {
         'level': 'Decides the count ("exactly n times, forever for 0") by an induction established from the CFG of the timer thread: one post and one '
@@ -151,7 +151,7 @@ CLAIMED = {
                  'guard re-reads the flag; plus per-iteration order sleep < re-test < post and the def-use wiring of period/times/deferred/tag. '
                  'The firing instants are NOT decided.',
         'note': 'Not decided: wall-clock instants, sleep overshoot, drift. Assumes nobody else clears the run flag (cancellation is C11/C12).',
-        'technique': SA + 'per-iteration path counting, comparison-operator table of the termination test, def-use wiring from API parameters to thread reads'
+        'technique': SA + 'per-iteration path counting, comparison-operator table of the termination test, def-use wiring from API parameters to thread reads; round 7: RING.owners'
                      + '; finite evaluation of post_fifo/post_lifo over period x times x deferred with recording stubs',
     },
     'C11': {
@@ -159,7 +159,7 @@ CLAIMED = {
                  'source exactly once (one of pop()/rotate(1) per iteration, len iterations, inspected element [-1]), and that only matched sources '
                  'are stopped. The test-then-post window of the timer thread is an open finding.',
         'note': 'Known finding F-C11b (one stray post after cancel returns) is reported as KNOWN-FINDING.',
-        'technique': SA + 'identity-vs-equality operator census, exactly-one-of path rule per loop iteration, guard analysis, lockset look at the timer; shared mechanism rules: TRACK.owner (tracking deque created once)'
+        'technique': SA + 'identity-vs-equality operator census, exactly-one-of path rule per loop iteration, guard analysis, lockset look at the timer; shared mechanism rules: TRACK.owner (tracking deque created once); round 7: RING.owners'
                      + '; admission limit == maxlen of the tracking deque; post-sleep re-test as a cut of the timer loop',
     },
     'C12': {
@@ -168,7 +168,7 @@ CLAIMED = {
                  'dispatch the stop item; and by effect analysis that stop() touches only this object. "No post after stop() returns" is limited by the '
                  'open finding F-C11b.',
         'note': 'Trusted: Thread.join semantics; the wake-up token protocol (C04).',
-        'technique': SA + 'dominance / post-dominance on the CFG of stop(), snapshot-vs-live alias rule, attribute-path write set of stop(); shared mechanism rules: LIVE.snapshot, RING.owners (step buffers written/cleared only on the chart thread), TRACK.owner (tracking deque created once), STOP.liveness (finite evaluation of the thread-running predicate)'
+        'technique': SA + 'dominance / post-dominance on the CFG of stop(), snapshot-vs-live alias rule, attribute-path write set of stop(); shared mechanism rules: LIVE.snapshot, RING.owners (step buffers written/cleared only on the chart thread), TRACK.owner (tracking deque created once), STOP.liveness (finite evaluation of the thread-running predicate); round 7: ORDER.start-path (fabric/writer start only on the start path, fabric first)'
                      + '; run flag re-read between two consumer steps; admission limit == maxlen; timer re-test',
     },
     'C13': {
@@ -177,7 +177,7 @@ CLAIMED = {
                  'the shared event before waking and wakes before joining with the same (handle, queue) pairs, is_alive is the conjunction (evaluated '
                  'on all 9 handle states), fabric and active objects share one run event, and nothing rebinds what the threads hold.',
         'note': 'Trusted: Thread.is_alive/join semantics. Delivery after restart relies on C06.',
-        'technique': SA + 'return-path completeness, dominance, finite evaluation of is_alive over handle states, singleton/alias census; shared mechanism rules: BOUND.buffers, QUEUE.internals (queue bookkeeping left to the queue)'
+        'technique': SA + 'return-path completeness, dominance, finite evaluation of is_alive over handle states, singleton/alias census; shared mechanism rules: BOUND.buffers, QUEUE.internals (queue bookkeeping left to the queue); round 7: ORDER.start-path (fabric/writer start only on the start path, fabric first)'
                      + '; stop analysis with or without the nested helper; wake-up item of the class publish() queues',
     },
     'C01': {
@@ -193,7 +193,7 @@ CLAIMED = {
                  'candidate was compared with every ancestor of the target up to the outermost state. Termination of the search is argued from these, not decided.',
         'note': 'Trusted base: handler protocol H1-H4 (evidence lists it); the thorough tier\'s census checks the repository\'s own handlers against it. '
                 'The obligations are safety facts of the code for every chart that follows H1-H4; liveness (the climb terminates) is argued from them for finite charts.',
-        'technique': SA + 'relational abstract interpretation (difference-bound matrices, flag-partitioned, delayed widening) with ghost variables for buffer content, chain depths, exit count and common-ancestor witness + CFG path/guard rules over the 19 handler-call sites; shared mechanism rules: HSM-CURSOR.I1 for generators',
+        'technique': SA + 'relational abstract interpretation (difference-bound matrices, flag-partitioned, delayed widening) with ghost variables for buffer content, chain depths, exit count and common-ancestor witness + CFG path/guard rules over the 19 handler-call sites; shared mechanism rules: HSM-CURSOR.I1 for generators; round 7: STEP.guard-reset (guard flags cleared in a finally), HOLDER.per-chart (event/state/temp holders stay per-chart Attribute objects), borrowed: HSM-CURSOR.I1 of C22',
     },
     'C02': {
         'level': 'Decides for every chart that the processor itself bubbles an event outward one level at a time (one offer per level to the cursor '
@@ -201,7 +201,7 @@ CLAIMED = {
                  'state unless a handler answered TRAN; top is effect-free and constant; every cursor-moving method restores cursor == state; and (ghost depth '
                  'on the active chain, any nesting depth) the n-th offer goes to the ancestor of the current state at depth n, the guard fallback to the state that declined.',
         'note': 'What a user handler returns is runtime and not decided. H1-H4 assumed.',
-        'technique': SA + 'loop-shape and guard-polarity analysis on the CFG of dispatch, reaching definitions of the offered-to state, effect set of top, post-dominance (I1), zone-domain ghost depth of the offered-to state; answer codes pairwise distinct (STATUS.distinct); spy-decoration detection (shared with C18/C23); shared mechanism rules: HSM-CURSOR.I1 for generators, BOOK.outputs-only (state_name/state_fn read by nothing)',
+        'technique': SA + 'loop-shape and guard-polarity analysis on the CFG of dispatch, reaching definitions of the offered-to state, effect set of top, post-dominance (I1), zone-domain ghost depth of the offered-to state; answer codes pairwise distinct (STATUS.distinct); spy-decoration detection (shared with C18/C23); shared mechanism rules: HSM-CURSOR.I1 for generators, BOOK.outputs-only (state_name/state_fn read by nothing); round 7: STEP.guard-reset (guard flags cleared in a finally), HOLDER.per-chart (event/state/temp holders stay per-chart Attribute objects), borrowed: HSM-CURSOR.I1 of C22',
     },
     'C03': {
         'level': 'Decides for every depth that init() keeps its path buffer consistent (zone-domain proof of all index obligations), enters slots '
@@ -209,7 +209,7 @@ CLAIMED = {
                  'before init() and leaves cursor == state == last init target; slot k holds the k-th ancestor of the init target when entered, and no raise '
                  'statement of init() is reachable by a protocol-following chart (start state below top, init targets inside the state that takes them).',
         'note': 'As C01: LCA-style functional correctness is not decided; H1-H4 assumed.',
-        'technique': SA + 'zone-domain abstract interpretation of init + entry-loop, signal-set and must-precede rules; shared mechanism rules: HSM-CURSOR.I1 for generators, FACTORY.identity (finite evaluation of Factory.start_at)',
+        'technique': SA + 'zone-domain abstract interpretation of init + entry-loop, signal-set and must-precede rules; shared mechanism rules: HSM-CURSOR.I1 for generators, FACTORY.identity (finite evaluation of Factory.start_at); round 7: STEP.guard-reset (guard flags cleared in a finally), HOLDER.per-chart (event/state/temp holders stay per-chart Attribute objects), borrowed: HSM-CURSOR.I1 of C22, borrowed: WRAP.no-block of C18',
     },
     'C19': {
         'level': 'Decides structurally that the spy log records every invocation: all handler calls go through the decorated handler object, and '
@@ -218,14 +218,14 @@ CLAIMED = {
                  'the full log only grows by extend(step log) after it, rings are bounded and right-extended. The exact line sequence for a '
                  'given chart is NOT decided.',
         'note': 'Trusted: handlers reach the processor only as the decorated object given to start_at/trans.',
-        'technique': SA + 'dominance / control-dependence on wrapper CFGs, who-writes census over the four ring buffers; finite evaluation of scribble() over texts with format metacharacters (SPY.scribble); shared mechanism rules: RING.owners (step buffers written/cleared only on the chart thread), ENDS.recall-guard',
+        'technique': SA + 'dominance / control-dependence on wrapper CFGs, who-writes census over the four ring buffers; finite evaluation of scribble() over texts with format metacharacters (SPY.scribble); shared mechanism rules: RING.owners (step buffers written/cleared only on the chart thread), ENDS.recall-guard; round 7: SPY.accessor-fresh (accessors evaluated on a full ring)',
     },
     'C20': {
         'level': 'Decides that each trace wrapper appends at most one record per call, only under "not hooked and not ignored", with start state '
                  'reflected before and end state after the step and only this step\'s tuples inspected; and outcome completeness: IGNORED always '
                  'sets event.ignored, and every package handler that is not spy-wrapped and can answer HANDLED records a hook tuple.',
         'note': 'Assumes user handlers are spy-wrapped when the chart is instrumented (spy_on_start switches instrumentation off otherwise).',
-        'technique': SA + 'path counting, guard analysis, outcome-completeness rule over dispatch and every top() override; the start state of a record is reflected from state.fun (the cursor is stale after a step that raised); shared mechanism rules: RING.owners (step buffers written/cleared only on the chart thread), BOOK.outputs-only (state_name/state_fn read by nothing)'
+        'technique': SA + 'path counting, guard analysis, outcome-completeness rule over dispatch and every top() override; the start state of a record is reflected from state.fun (the cursor is stale after a step that raised); shared mechanism rules: RING.owners (step buffers written/cleared only on the chart thread), BOOK.outputs-only (state_name/state_fn read by nothing); round 7: HOLDER.per-chart (event/state/temp holders stay per-chart Attribute objects)'
                      + '; trace() is a pure rendering of the live trace deque (effects + iteration source)',
     },
     'C21': {
@@ -233,7 +233,7 @@ CLAIMED = {
                  'record is decided by identity with the remembered record and the memory is updated on every path, live spy loops iterate a '
                  'snapshot with one callback per line after the step, and active-object output funnels through one FIFO queue and one writer thread.',
         'note': 'Two writer threads from concurrently starting objects are outside this property\'s quantifier. User callbacks not analysed.',
-        'technique': SA + 'field-based taint from datetime.now() to branch conditions, identity/update-on-every-path rule, loop-shape rules; finite evaluation of the writer\'s enqueue step with truthy/falsy callback objects and empty lines (LIVE.writer-item); shared mechanism rules: RING.owners (step buffers written/cleared only on the chart thread)'
+        'technique': SA + 'field-based taint from datetime.now() to branch conditions, identity/update-on-every-path rule, loop-shape rules; finite evaluation of the writer\'s enqueue step with truthy/falsy callback objects and empty lines (LIVE.writer-item); shared mechanism rules: RING.owners (step buffers written/cleared only on the chart thread); round 7: ORDER.start-path (fabric/writer start only on the start path, fabric first)'
                      + '; writer thread: take/callback pairing over simple paths, wake-up flag cleared before the queue is examined',
     },
     'C22': {
@@ -241,7 +241,7 @@ CLAIMED = {
                  'walk outward from the cursor until top answers IGNORED or the argument matches (== comparison), set their answer only on a match, '
                  'and that child is the cursor before the outward step.',
         'note': 'Relies on I1 (cursor == state between steps), which is checked for init/dispatch in the same run. child_state fails through assert.',
-        'technique': SA + 'signal-set, write-set, post-dominance and control-dependence rules; a counted walk loop is a third way out of the walk (finding unless the iterable is endless); shared mechanism rules: HSM-CURSOR.I1 for generators, BOOK.outputs-only (state_name/state_fn read by nothing)',
+        'technique': SA + 'signal-set, write-set, post-dominance and control-dependence rules; a counted walk loop is a third way out of the walk (finding unless the iterable is endless); shared mechanism rules: HSM-CURSOR.I1 for generators, BOOK.outputs-only (state_name/state_fn read by nothing); round 7: HOLDER.per-chart (event/state/temp holders stay per-chart Attribute objects)',
     },
     'C23': {
         'level': 'Decides that after start_at and after every step the last writer of state_name/state_fn on every path names the value stored in '
@@ -256,7 +256,7 @@ CLAIMED = {
                  'initial-transition walks carry the guard, and (zone domain) that init never reads a negative index. A hang or silently wrong walk '
                  'on a malformed chart is a missing guard, visible for every chart shape.',
         'note': 'H1 for top (answers IGNORED, does not move the cursor). Malformed charts other than the two kinds the property names are not covered.',
-        'technique': SA + 'loop inventory with termination arguments, None-discipline dataflow over handler-call sites, sibling comparison, zone-domain index proofs; the arguments of every raised HsmTopologyException read only attributes the raising class or its bases define (EXC.constructible); clean-up before a re-raise cannot fail on an unstarted object (nullable attribute dereference)'
+        'technique': SA + 'loop inventory with termination arguments, None-discipline dataflow over handler-call sites, sibling comparison, zone-domain index proofs; the arguments of every raised HsmTopologyException read only attributes the raising class or its bases define (EXC.constructible); clean-up before a re-raise cannot fail on an unstarted object (nullable attribute dereference); round 7: STEP.guard-reset (guard flags cleared in a finally), borrowed: CONSUMER.next_rtc / CONSUMER.circuit of C14'
                      + '; exception transparency of every layer between the public calls and the processor (no return in finally, no catch-all without re-raise)',
     },
     'C17': {
